@@ -112,6 +112,64 @@ def check_partial(case):
             'sample': {'bench': build.bench_text(nl), 'explicit_undefined': case['explicit_undefined']}}
 
 
+@st.composite
+def reuse_cases(draw, tier):
+    nl = draw(gen.netlists(min_inputs=1, max_inputs=4, max_gates=10, max_arity=3, styles=('plain', 'mixed'),
+                           max_outputs=3, const_operands=(0, 0, 2)))
+    n = len(nl['inputs'])
+    steps = []
+    for _ in range(draw(st.integers(2, 8))):
+        steps.append([draw(st.sampled_from(['lazy', 'full', 'outputs'])), draw(st.integers(0, n - 1)),
+                      draw(st.sampled_from([True, False, None]))])
+    return {'nl': nl, 'route': draw(gen.routes(nl)), 'steps': steps}
+
+
+def check_reuse(case):
+    """The caller keeps ONE assignment dictionary, evaluates, refines / changes an input in place, evaluates again
+    (possibly through another entry point).  Every answer must be sound for the inputs the dictionary fixes then."""
+    core = cirbo_core()
+    U = core.Undefined
+    nl = case['nl']
+    c = build.build(nl, case['route'])
+    n = len(nl['inputs'])
+    pats, mask = refsem.full_patterns(n)
+    t = refsem.tables(nl)
+    labs = [g[0] for g in nl['gates']]
+    typ = {g[0]: g[1] for g in nl['gates']}
+    reach = refsem.reachable(nl)
+    d = {}
+    polluted = False
+    for k, (entry, i, val) in enumerate(case['steps']):
+        name = nl['inputs'][i]
+        if val is None:
+            d.pop(name, None)
+        else:
+            d[name] = val
+        if any(key not in nl['inputs'] for key in d):
+            polluted = True  # an earlier call wrote gate values into the caller's dictionary
+        cube = mask
+        for q, x in enumerate(nl['inputs']):
+            if x in d and (d[x] is True or d[x] is False):
+                cube &= pats[q] if d[x] else (pats[q] ^ mask)
+        total = all(x in d and (d[x] is True or d[x] is False) for x in nl['inputs'])
+        if entry == 'lazy':
+            res = c.evaluate_circuit(d)
+        elif entry == 'full':
+            res = c.evaluate_full_circuit(d)
+        else:
+            res = c.evaluate_circuit_outputs(d)
+        for lab, v in res.items():
+            if lab not in t:
+                continue
+            if v is True and t[lab] & cube != cube:
+                raise Violation('reuse_unsound', f'step {k} ({entry}) inputs {d if not polluted else {x: d[x] for x in nl["inputs"] if x in d}}: gate {lab} reported True but a completion gives False')
+            if v is False and t[lab] & cube != 0:
+                raise Violation('reuse_unsound', f'step {k} ({entry}): gate {lab} reported False but a completion gives True')
+            if total and v == U and v is not True and v is not False and (entry == 'full' or lab in reach or typ[lab] == 'INPUT'):
+                raise Violation('reuse_undefined_on_total', f'step {k} ({entry}): gate {lab} Undefined under a total assignment')
+    return {'nt': len(case['steps']) >= 3 and gen.nontrivial_basic(nl), 'cls': {'steps>=4'} if len(case['steps']) >= 4 else set()}
+
+
 def operator_tables(tier):
     core = cirbo_core()
     U = core.Undefined
@@ -164,10 +222,13 @@ SPEC = {
              'evaluate_circuit_outputs; oracle: every True/False gate value is constant on the cube of completions '
              '(one big-int operation against the reference full table), every one-step refinement keeps defined '
              'values, total assignments leave no evaluated gate Undefined. Finite part: all operators x all '
-             'operand tuples over {F,T,U}. Non-trivial: some gate is defined while an input it structurally '
+             'operand tuples over {F,T,U}. Sub-check dict_reuse: the caller keeps one assignment dictionary across a generated '
+             'sequence of evaluations through the three entry points while defining / changing / undefining inputs in place; every '
+             'answer must be sound for the inputs fixed at that moment. Non-trivial: some gate is defined while an input it structurally '
              'depends on is undefined.'),
     'assumptions': ['reference full tables from vlib/refsem.py'],
-    'subs': [Sub('partial', cases, check_partial, {'quick': 1500, 'thorough': 75000})],
+    'subs': [Sub('partial', cases, check_partial, {'quick': 1500, 'thorough': 75000}),
+             Sub('dict_reuse', reuse_cases, check_reuse, {'quick': 1500, 'thorough': 50000})],
     'exhaustive': {'operator_tables': operator_tables},
     'required_classes': {'partial': ['nary>=3', 'LR_gate', 'cmp_gate', 'constant', 'dup_operand', 'dead_gate']},
 }
